@@ -19,6 +19,8 @@ def run(ctx):
     cells, table = TR.round_pair_table(rep, F)
     n3 = TR.needs_tz_crosscheck(rep, F, table)
     n4 = S.sticky(rep, F, fns)
+    ndf = roots.default_form(rep, F, r'cbrt')
+    rep.floor('default-context form', ndf, 1)
     nkg = roots.kernel_gates(rep, F, r'cbrt')
     rep.floor('kernel gateways', nkg, 1)
     npf = exact.pow_fits(ctx)
